@@ -9,6 +9,7 @@
    the inverse map decodes back to x.  Those two facts are covered by the correspondence only. *)
 From Coq Require Import ZArith List Bool.
 Require Import Spec.Params Spec.Field Spec.Curve Spec.Bytes Spec.Sha256 Model.Base Model.Ecdh Model.Ellswift Proofs.EllswiftProofs.
+Require Import Proofs.MathFacts Proofs.EcdhComplete.
 Import ListNotations.
 Local Open Scope Z_scope.
 
@@ -106,3 +107,13 @@ Theorem sign_fix_parity : forall P t (yodd : bool), Z.odd (cp P) = true -> 0 < t
   Z.odd (if Bool.eqb (Z.odd t) yodd then t else fneg P t) = yodd.
 Proof. exact sign_fix_parity. Qed.
 Print Assumptions sign_fix_parity.
+
+(* SYMMETRY [MF]: under the group premises both parties of an ECDH exchange on multiples of G obtain the same
+   result (return value and output bytes), for every hash function.  (Example ecdh_symmetric_toy.)
+   The x-only variant (xdh on ElligatorSwift strings) additionally needs square-root uniqueness in the field
+   and the round trip of the map: not proved, checked on every generated pair. *)
+Theorem ecdh_symmetric : forall P, MathFacts P -> forall (h : ecdh_hashfn) ka kb,
+  1 <= be_val ka < cn P -> 1 <= be_val kb < cn P ->
+  ecdh_pt P h (pmul P (be_val kb) (G P)) ka = ecdh_pt P h (pmul P (be_val ka) (G P)) kb.
+Proof. exact ecdh_symmetric. Qed.
+Print Assumptions ecdh_symmetric.
